@@ -2,6 +2,7 @@ import Driver.Util
 import Driver.BPE
 import Driver.Sparse
 import Driver.Heap
+import Driver.Twin
 /-
   Line protocol: one JSON object per input line, {"op": "<name>", ...}; one JSON object per
   output line. Unknown ops and malformed requests answer {"bad": "<reason>"} — the model never
@@ -13,7 +14,8 @@ namespace Driver
 def handlers : List (String → Json → Option (R Json)) := [
   Driver.BPE.handle,
   Driver.Sparse.handle,
-  Driver.HeapD.handle
+  Driver.HeapD.handle,
+  Driver.Twin.handle
 ]
 
 def dispatch (j : Json) : Json :=
